@@ -187,7 +187,7 @@ def shard_words(args):
                 f = C.build(spec)
                 fc = C.cells(f)
                 plain = [(c, ()) for c in text]
-                for columns in range(1, maxcol + 1):
+                for columns in range(1, maxcol + 3):
                     case = {"f": C.show_spec(spec), "columns": columns}
                     acc.case(True, key=("w", spec, columns), sample=case)
                     acc.transitions += 2
@@ -196,8 +196,39 @@ def shard_words(args):
     return acc.export()
 
 
+def shard_fresh_formatting(args):
+    """Results must not depend on what was wrapped earlier in the same process (module-level caches keyed by formatting).  Each case
+    uses a formatting that has never been seen before in this process - so the order 'mixed gap first, then uniform gap' (and the reverse)
+    is under the harness's control: bg colours 40..47 x style pairs give fresh attribute sets."""
+    tier, seed, idx = args
+    acc = Acc(seed=seed)
+    fresh = []
+    for bg in range(40, 48):
+        for st in C.STYLE_NAMES:
+            fresh.append((("bg", bg), (st, True)))
+    for k in range(idx, len(fresh), 4):
+        X = tuple(sorted(fresh[k]))
+        Y = (("fg", 35),)
+        for order in ("mixed_first", "uniform_first"):
+            XX = tuple(sorted(X + ((("dark", True),) if order == "uniform_first" else (("italic", True),)))) if True else X
+            mixed = (("aa", ()), (" ", XX), (" ", Y), ("bb", ()), (" ", XX), ("c", ()))       # first gap starts with XX and changes inside
+            uniform = (("aa", ()), ("  ", XX), ("bb", ()), (" ", XX), ("c", ()))               # gaps uniformly XX
+            seq = (mixed, uniform) if order == "mixed_first" else (uniform, mixed)
+            for spec in seq:
+                f = C.build(spec)
+                fc = C.cells(f)
+                for columns in (5, 8, 9):
+                    case = {"f": C.show_spec(spec), "columns": columns, "order": order}
+                    acc.case(True, key=("fresh", k, order, spec, columns), sample=case)
+                    acc.transitions += 1
+                    check(acc, f, fc, columns, case)
+    return acc.export()
+
+
 def run(ctx):
     rep = Report()
+    for d in ctx.pmap(shard_fresh_formatting, [(ctx.tier, ctx.seed, i) for i in range(4)]):
+        rep.merge(d, "fresh_formatting_order")
     ns = 256 if ctx.thorough else 64
     for d in ctx.pmap(shard, [(ctx.tier, ctx.seed, i, ns) for i in range(ns)]):
         rep.merge(d, "exhaustive_short_strings")
